@@ -5,8 +5,10 @@
 package model
 
 import (
+	"bytes"
 	"crypto/sha256"
 	"encoding/binary"
+	"encoding/gob"
 	"encoding/json"
 	"sort"
 )
@@ -380,4 +382,17 @@ func (s *Seg) HasField(name string) bool {
 		}
 	}
 	return false
+}
+
+// Clone returns a deep copy of the batch.
+func (b *Batch) Clone() *Batch {
+	var buf bytes.Buffer
+	if err := gob.NewEncoder(&buf).Encode(b); err != nil {
+		panic(err)
+	}
+	out := &Batch{}
+	if err := gob.NewDecoder(&buf).Decode(out); err != nil {
+		panic(err)
+	}
+	return out
 }
